@@ -1,6 +1,67 @@
-//! Kani harnesses for nomt/src/beatree/ops/update/mod.rs (compiled into the real crate only under cfg(kani)).
+//! Leaf updater: BOUNDED NATIVE ENUMERATION (run with `cargo kani playback`, ordinary debug build of
+//! the real crate; no solver) of the contract between `LeafUpdater::ingest` and its
+//! `with_deleted_overflow` callback.  The leaf page code is beyond CBMC here (see leaf_node.rs) and
+//! `impl FnMut` callbacks cannot be given a "was called" postcondition in Verus, so this labelled
+//! stand-in is what checks the obligation.  Never counted as proved.
 #![allow(unused_imports, dead_code)]
 use super::*;
+
+/// C19 (storage is reclaimed): whenever a key whose current cell is an overflow cell is deleted or
+/// overwritten, `ingest` reports exactly that old cell to the callback (so its overflow pages are
+/// freed) - whatever the key's position in the leaf and whatever else changes in the same batch -
+/// and reports nothing for untouched keys or for keys whose cell is stored inline.
+/// Enumerated: a base leaf of 3 cells, every combination of (overflow / inline) per cell, every
+/// subset of changed keys, delete and overwrite: 8 x 8 x 2 = 128 cases.
+#[cfg(test)]
+#[test]
+fn native_enum_leaf_ingest_reports_deleted_overflow_cells() {
+    use crate::beatree::leaf::node::LeafBuilder;
+    use leaf_updater::{BaseLeaf, LeafUpdater};
+    use std::sync::Arc;
+    let page_pool = crate::io::PagePool::new();
+    let keys: [crate::beatree::Key; 3] = [[0x10; 32], [0x20; 32], [0x30; 32]];
+    let mut cases = 0u64;
+    for overflow_mask in 0..8u8 {
+        for changed_mask in 0..8u8 {
+            for delete in [true, false] {
+                // old cells: an overflow cell is 44 bytes (size, hash, one page number), an inline
+                // value 5 bytes; contents identify the key
+                let old: Vec<(Vec<u8>, bool)> = (0..3)
+                    .map(|i| {
+                        let ov = overflow_mask & (1 << i) != 0;
+                        (vec![0xA0 + i as u8; if ov { 44 } else { 5 }], ov)
+                    })
+                    .collect();
+                let total: usize = old.iter().map(|c| c.0.len()).sum();
+                let mut b = LeafBuilder::new(&page_pool, 3, total);
+                for i in 0..3 {
+                    b.push_cell(keys[i], &old[i].0, old[i].1);
+                }
+                let node = Arc::new(b.finish());
+                let mut updater = LeafUpdater::new(page_pool.clone(), Some(BaseLeaf::new(node, [0u8; 32])), None);
+                let mut reported: Vec<Vec<u8>> = Vec::new();
+                let mut expected: Vec<Vec<u8>> = Vec::new();
+                for i in 0..3 {
+                    if changed_mask & (1 << i) == 0 {
+                        continue;
+                    }
+                    if old[i].1 {
+                        expected.push(old[i].0.clone());
+                    }
+                    let change = if delete { None } else { Some(vec![0x77u8; 3]) };
+                    updater.ingest(keys[i], change, false, |cell| reported.push(cell.to_vec()));
+                }
+                cases += 1;
+                assert_eq!(
+                    reported, expected,
+                    "overflow cells reported for freeing differ from the overflow cells removed (overflow_mask={:03b} changed_mask={:03b} delete={}): a removed overflow value's pages would leak",
+                    overflow_mask, changed_mask, delete
+                );
+            }
+        }
+    }
+    println!("native_enum_leaf_ingest_reports_deleted_overflow_cells: {} calls", cases);
+}
 
 #[cfg(test)]
 include!("/verif/.build/playback/beatree_update.inc");
